@@ -500,7 +500,7 @@ func init() {
 		p := &Prop{ID: id, Level: "exploration",
 			Budget: func(tier string) time.Duration {
 				if tier == "quick" {
-					return 60 * time.Second
+					return 120 * time.Second
 				}
 				return 10 * time.Minute
 			},
